@@ -229,6 +229,44 @@ example :
     ∧ (execCached W ([], []) t0 evs).map (·.perFile.flatten.map (·.line)) = [[1], [257]] := by
   refine ⟨by decide +kernel, by decide +kernel, by decide +kernel, by decide +kernel, by decide +kernel, by decide +kernel⟩
 
+/-! ## the cache document: findings and whole-program information interleaved -/
+
+/-- **replay reads every finding.** Whatever the number of preprocessor configurations and however their findings and `<FileInfo>`
+    elements interleave in the cache file, `cachedErrors` returns exactly the findings that were written, in order -/
+theorem cachedErrors_all {I : Type} (blocks : List (List Finding × List I)) :
+    cachedErrors (writeDoc blocks) = blocks.flatMap (·.1) := by
+  induction blocks with
+  | nil => rfl
+  | cons b r ih =>
+    have ih' : cachedErrors (List.flatMap (fun b => b.1.map DocChild.error ++ b.2.map (DocChild.fileInfo (I := I))) r)
+        = List.flatMap (·.1) r := ih
+    simp only [writeDoc, List.flatMap_cons, cachedErrors_append, cachedErrors_errors, cachedErrors_infos, List.append_nil, ih']
+
+/-- … for any document at all: the findings read are the `<error>` children in document order (no hypothesis on the position) -/
+theorem cachedErrors_any_interleaving {I : Type} (a b : List (DocChild I)) (f : Finding) :
+    f ∈ cachedErrors (a ++ DocChild.error f :: b) := by
+  simp [cachedErrors, DocChild.error?]
+
+/-- a reader that stops at the first child that is not an `<error>` loses the findings of every later configuration
+    (seeded change `C18-cached-errors-read-until-first-fileinfo`) -/
+theorem errorPrefix_reader_counterexample :
+    let f1 : Finding := { id := "a".toList, file := "a.c".toList, line := 11, col := 1, msg := [] }
+    let f2 : Finding := { id := "b".toList, file := "a.c".toList, line := 18, col := 1, msg := [] }
+    let doc := writeDoc [([f1], [()]), ([f2], [()])]
+    readErrors .errorPrefix doc = [f1] ∧ readErrors .allChildren doc = [f1, f2] := by
+  refine ⟨by decide +kernel, by decide +kernel⟩
+
+/-- AnalyzerInformation::skipAnalysis visits all children (translated on every run) -/
+theorem current_reader_all : Cppcheck.Gen.HashInput.errorReader = .allChildren := by decide
+
+/-- the `findings` component of a cache entry (what `reuse` hands to the replay) is what the translated reader returns for the document the
+    analysis wrote, for every split of the analysis' findings into configuration blocks with any `<FileInfo>` elements in between -/
+theorem entry_findings_from_document {I : Type} (W : World H S F) (sr : SummRet) (i : FileInput) (blocks : List (List Finding × List I))
+    (h : blocks.flatMap (·.1) = (W.analyze sr i.view).map Finding.stored) :
+    readErrors Cppcheck.Gen.HashInput.errorReader (writeDoc blocks) = (entryOf W sr i).findings := by
+  rw [current_reader_all]
+  simp only [readErrors, cachedErrors_all, h, entryOf]
+
 /-! ## several jobs -/
 
 /-- **any worker order.** A run whose workers finish the listed files in any order (a permutation; one file = one atomic step,
